@@ -1019,6 +1019,9 @@ def vendor_cases():
     # statements started from a Table object made by the class's factories: the dialect context is the table's query_cls
     for c in CLS_NAMES:
         out.append({"vendor": "factory", "cls": c})
+    # JSON document literals: the literal's text is the same token under every class (direct and around a sub-query)
+    for c in CLS_NAMES:
+        out.append({"vendor": "json-literal", "cls": c})
     # ONE set of term / table objects embedded in statements of every class, rendered in varying orders (and pre-rendered
     # with str()): rendering is a pure function of the statement and the class, so the text must equal that of fresh objects
     for order in range(len(SHARED_ORDERS)):
@@ -1233,6 +1236,102 @@ class _Ref:
 
 
 # ----------------------------------------------------------------------------------------------
+# JSON document literals: every public spelling of the JSON term; the text of a literal does not depend on the class
+# ----------------------------------------------------------------------------------------------
+JSON_DOC = {"kind": "a", "tags": ["x", "y"], "n": 1, "ok": True, "none": None, "q": "it's \"q\" `b`", "in": {"k": ["v"]}}
+JSON_LIST = ["x", {"k": "v"}, 2, False]
+# spelling -> (argument, how the argument becomes literal tokens: "json" the JSON text of the argument, "const" the
+# plain string/number literal, "wrap" Term.wrap_json: JSON text for a dict/list and a plain literal for str/int/bool,
+# "array" one plain literal per element)
+JSON_SPELLINGS = {
+    "contains": [(JSON_DOC, "json"), (JSON_LIST, "json"), ("plain", "wrap"), (5, "wrap")],
+    "contained_by": [(JSON_DOC, "json"), (JSON_LIST, "json")],
+    "has_key": [("k'1", "wrap")],
+    "get_json_value": [("k'1", "const"), (3, "const")],
+    "get_text_value": [("k2", "const"), (0, "const")],
+    "get_path_json_value": [("{a,b}", "wrap")],
+    "get_path_text_value": [("{a,c}", "wrap")],
+    "has_keys": [(["a", "b"], "array")],
+    "has_any_keys": [(["c", "d'e"], "array")],
+}
+
+
+def json_expected(arg, how):
+    import json
+    if how == "wrap":
+        how = "json" if isinstance(arg, (dict, list)) else "const"
+    if how == "json":
+        return [json.dumps(arg, separators=(",", ":"), ensure_ascii=False)]
+    if how == "const":
+        return [arg] if isinstance(arg, str) else []
+    return list(arg)
+
+
+def json_public_spellings():
+    from pypika.terms import JSON, Term
+    return sorted(n for n, f in vars(JSON).items() if not n.startswith("_") and callable(f) and n != "get_sql")
+
+
+def run_json(cls_name):
+    from pypika import Table
+    from pypika.terms import JSON
+    X = qclass(cls_name)
+    rows = []
+
+    def emit(label, fn, expected):
+        try:
+            text = str(fn())
+        except Exception as e:  # noqa
+            text = "!" + type(e).__name__ + ": " + str(e)
+        rows.append([label, text, expected])
+
+    t = Table("zt1")
+    for name, args in JSON_SPELLINGS.items():
+        for i, (arg, how) in enumerate(args):
+            exp = json_expected(arg, how)
+            mk = lambda tb, name=name, arg=arg: getattr(tb.field("doc"), name)(arg)
+            emit("%s#%d/where" % (name, i), lambda: X.from_(t).select(t.field("id")).where(mk(t)), exp)
+            emit("%s#%d/select" % (name, i), lambda: X.from_(t).select(mk(t).as_("zb1")), exp)
+            for inner in CLS_NAMES:
+                I = qclass(inner)
+                emit("%s#%d/sub:%s" % (name, i, inner),
+                     lambda: X.from_(t).select(t.field("id")).where(t.field("id").isin(I.from_(t).select(t.field("id")).where(mk(t)))), exp)
+                emit("%s#%d/from-sub:%s" % (name, i, inner),
+                     lambda: X.from_(I.from_(t).select(t.field("id")).where(mk(t)).as_("zq1")).select("id"), exp)
+    for i, (val, how) in enumerate([(JSON_DOC, "json"), (JSON_LIST, "json"), ("plain", "json"), (7, "json"), (None, "json")]):
+        exp = json_expected(val, how)
+        emit("JSON()#%d/select" % i, lambda: X.from_(t).select(JSON(val).as_("za1"), JSON(val, alias="za2")), exp + exp)
+        emit("JSON()#%d/insert" % i, lambda: X.into(t).insert(1, JSON(val)), exp)
+        emit("JSON()#%d/update" % i, lambda: X.update(t).set(t.field("doc"), JSON(val)).where(JSON(val).contains(val)), exp * 2 + (json_expected(val, "wrap") if val is not None else []))
+        emit("JSON()#%d/chain" % i, lambda: X.from_(t).select(JSON(val).get_json_value("k").as_("zb1")), exp + ["k"])
+        for inner in CLS_NAMES:
+            I = qclass(inner)
+            emit("JSON()#%d/sub:%s" % (i, inner),
+                 lambda: X.from_(t).select(t.field("id")).where(t.field("id").isin(I.from_(t).select(JSON(val)))), exp)
+    known = set(JSON_SPELLINGS)
+    return {"text": "", "meta": {}, "rows": rows, "unknown": [n for n in json_public_spellings() if n not in known]}
+
+
+def json_oracle(cls, outcome):
+    out, seen = [], set()
+    for n in outcome.get("unknown", []):
+        out.append({"signature": ["C07", cls, cls, "vendor:json-literal", "unknown-spelling:" + n],
+                    "what": "pypika.terms.JSON has a public method %s that the C07 JSON family does not enumerate" % n})
+    for label, text, expected in outcome.get("rows", []):
+        lits = [v for kind, v, q in lex(text) if kind == "q" and q == "'"]
+        if text.startswith("!") or lits != expected:
+            spelling, where = label.split("#")[0], label.split("/")[1].split(":")[0]
+            sig = ("C07", cls, cls, "vendor:json-literal", spelling + "/" + where)
+            if sig in seen:
+                continue
+            seen.add(sig)
+            out.append({"signature": list(sig),
+                        "what": "%s under %s: the string literals of %r are %r; the class-independent text of the literals is %r"
+                                % (label, cls, text, lits, expected)})
+    return out
+
+
+# ----------------------------------------------------------------------------------------------
 # shared term objects across dialects
 # ----------------------------------------------------------------------------------------------
 def shared_objects():
@@ -1372,6 +1471,8 @@ def run_vendor(case):
         return run_shared(case["order"])
     if v == "factory":
         return run_factory(case["cls"])
+    if v == "json-literal":
+        return run_json(case["cls"])
     if v == "clause-inventory":
         own, other = clause_inventory(case["cls"])
         covered = set()
@@ -1457,6 +1558,8 @@ def run_vendor(case):
 
 def vendor_oracle(case, outcome):
     cls, v = case["cls"], case["vendor"]
+    if v == "json-literal":
+        return json_oracle(cls, outcome)
     if v == "factory":
         out = []
         for route, label, got, ref in outcome.get("rows", []):
